@@ -57,8 +57,8 @@ def specs(tier: str):
     out = []
 
     def add(sync=False, **args):
-        out.append({"module": "props.c11", "factory": "sc_eof", "args": args, "K": 0, "name": f"sc_eof{sorted(args.items())}" + ("@sync" if sync else ""),
-                    "timeout": 6000 if thorough else 900, "validate": 4 if thorough else 2, "depth_probes": 300, "sync_granularity": sync})
+        out.append({"module": "props.c11", "factory": "sc_eof", "args": args, "K": 0, "name": f"sc_eof{sorted(args.items())}" + ("@sync" if sync and not thorough else ""),
+                    "timeout": 6000 if thorough else 900, "validate": 4 if thorough else 2, "depth_probes": 300, "sync_granularity": sync and not thorough})
 
     for be in ("thread", "main_thread_only"):
         add(bodies=(), backend=be)
